@@ -645,9 +645,15 @@ func getUniqueKey(c xnode, uniques [][]xml.Name) (string, bool) {
 		}
 		outs = append(outs, desc)
 	}
-	//use middle dot (U+00B7) to join strings so we don't have
-	//problems with string values.
-	return strings.Join(outs, "·"), true
+	// The key has to tell different tuples of values apart whatever
+	// characters the values contain, so each value is written with its
+	// length in front (joining with a separator lets "a·b","c" and
+	// "a","b·c" collide).
+	var key strings.Builder
+	for _, out := range outs {
+		fmt.Fprintf(&key, "%d:%s", len(out), out)
+	}
+	return key.String(), true
 }
 
 func xmlPathToPath(path []xml.Name) []string {
